@@ -1,4 +1,5 @@
 import FitModel.Writer
+import FitModel.WriterShort
 import FitModel.Integrity
 import FitModel.Generated.WireConsts
 import Driver.Util
@@ -26,7 +27,13 @@ structure Cfg where
   pvOpt : Nat
   v : Bool
   pre : Bytes
+  /-- where the destination is positioned when the encoder gets it (`pre.length` unless `pos=` says otherwise) -/
+  pos : Nat
   faults : List (Nat × Nat)
+  /-- operations answered (n < len, nil) — entries `k<s>j` of `f=` -/
+  shorts : List (Nat × Nat) := []
+  /-- `ap=1`: the destination is an O_APPEND file -/
+  ap : Bool := false
   hasF : Bool
   cont : Bool
   files : List Drv.W.WFile
@@ -37,12 +44,16 @@ def parseKind : String → Option Kind
 def parseInt (s : String) : Option Int :=
   if s.startsWith "-" then (s.drop 1).toString.toNat?.map fun n => -(n : Int) else s.toNat?.map fun n => (n : Int)
 
-def parseFaults (s : String) : Option (List (Nat × Nat)) :=
+/-- entries `k.j` (fails after j bytes) and `k<s>j` (takes j bytes, no error): (is-short, k, j) -/
+def parseFaults (s : String) : Option (List (Bool × Nat × Nat)) :=
   if s == "-" || s.isEmpty then some []
   else (s.splitOn ",").mapM fun e =>
     match e.splitOn "." with
-    | [a, b] => do let a ← a.toNat?; let b ← b.toNat?; pure (a, b)
-    | _ => none
+    | [a, b] => do let a ← a.toNat?; let b ← b.toNat?; pure (false, a, b)
+    | _ =>
+      match e.splitOn "s" with
+      | [a, b] => do let a ← a.toNat?; let b ← b.toNat?; pure (true, a, b)
+      | _ => none
 
 def parse (args : List String) (needKind : Bool) : Option Cfg := do
   let (kv, rest) := Drv.W.splitKV args
@@ -60,10 +71,16 @@ def parse (args : List String) (needKind : Bool) : Option Cfg := do
   let hasF := match kv.lookup "f" with
     | some s => s != "-" && !s.isEmpty
     | none => false
-  if (fs.map (·.1)).eraseDups.length != fs.length then none
-  pure { kind := kind, bs := bs, stream := kv.lookup "m" == some "s",
+  if (fs.map (·.2.1)).eraseDups.length != fs.length then none
+  let pos ← match kv.lookup "pos" with
+    | some p => p.toNat?
+    | none => some pre.length
+  if pos > pre.length then none
+  let ap := kv.lookup "ap" == some "1"
+  if ap && kind == Kind.at then none
+  pure { ap := ap, kind := kind, bs := bs, stream := kv.lookup "m" == some "s",
          o := Drv.W.mkOpts (Drv.W.kvGet kv "a") (Drv.W.kvGet kv "h") (Drv.W.kvGet kv "l"),
-         pvOpt := Drv.W.kvGet kv "pv", v := Drv.W.kvGet kv "v" == 1, pre := pre, faults := fs, hasF := hasF,
+         pvOpt := Drv.W.kvGet kv "pv", v := Drv.W.kvGet kv "v" == 1, pre := pre, pos := pos, faults := (fs.filter (!·.1)).map (·.2), shorts := (fs.filter (·.1)).map (·.2), hasF := hasF,
          cont := kv.lookup "c" == some "1", files := files }
 
 def faultsOf (fs : List (Nat × Nat)) : Faults := fun k => fs.lookup k
@@ -88,7 +105,7 @@ def fitIn (pvOpt : Nat) (f : Drv.W.WFile) : FitIn :=
 /-- one run (mirror of `wrRun` in the harness) for a validator `V` -/
 def runWith {σ : Type} (V : MsgValidator σ) (sc : StreamCfg) (c : Cfg) (fs : List (Nat × Nat)) : Out := Id.run do
   let F := faultsOf fs
-  let d0 : Dest := { content := c.pre, pos := c.pre.length }
+  let d0 : Dest := { content := c.pre, pos := c.pos }
   let mut out : Out := { d := d0 }
   let note := fun (out : Out) (before : Nat) (d : Dest) (r : Res) =>
     let fired := failedInjected d - before
@@ -128,8 +145,58 @@ where
   /-- operations that failed because the schedule said so (a negative seek is not an injected fault; the encoder never issues one) -/
   failedInjected (d : Dest) : Nat := failedCount d
 
+/-- the schedule of a run with contract-breaking answers (FitModel/WriterShort.lean) -/
+def schedOf (fs shorts : List (Nat × Nat)) : Sched where
+  resp := fun k => match shorts.lookup k with
+    | some j => .short j
+    | none => match fs.lookup k with
+      | some j => .fail j
+      | none => .ok
+  extra := shorts.length
+
+/-- `runWith` over the extended model (used only when the op has `k<s>j` entries) -/
+def runWithR {σ : Type} (V : MsgValidator σ) (sc : StreamCfg) (c : Cfg) : Out := Id.run do
+  let R := schedOf c.faults c.shorts
+  let d0 : Dest := { content := c.pre, pos := c.pos }
+  let mut out : Out := { d := d0 }
+  let note := fun (out : Out) (before : Nat) (d : Dest) (r : Res) =>
+    let fired := failedCount d - before
+    { out with results := out.results.push r, hits := out.hits ++ (Array.replicate fired out.results.size), d := d }
+  if c.stream then
+    if c.kind == .plain then return { out with refused := true }
+    let h := streamHdr c.pvOpt
+    let mut s := Stream.new c.o c.kind c.bs d0
+    let mut vs := V.init
+    let mut stop := false
+    for f in c.files do
+      if stop then break
+      for m in f.msgs do
+        if stop then break
+        let before := failedCount s.e.w.d
+        let r := s.writeMessageVR V R c.o h vs m
+        s := r.1; vs := r.2.1
+        out := note out before s.e.w.d r.2.2
+        if r.2.2 != .ok && !c.cont then stop := true
+      if stop then break
+      let before := failedCount s.e.w.d
+      let r := s.sequenceCompletedVR V R sc c.o h vs
+      s := r.1; vs := r.2.1
+      out := note out before s.e.w.d r.2.2
+      if r.2.2 != .ok && !c.cont then stop := true
+    return out
+  else
+    let mut e := Enc.new c.o c.kind c.bs d0
+    for f in c.files do
+      let before := failedCount e.w.d
+      let r := encodeVR V R c.o e (fitIn c.pvOpt f)
+      e := r.1
+      out := note out before e.w.d r.2
+      if r.2 != .ok && !c.cont then break
+    return out
+
 def run (c : Cfg) (fs : List (Nat × Nat)) : Out :=
-  if c.v then runWith markValidator pinnedStreamCfg c fs else runWith passThrough pinnedStreamCfg c fs
+  if !c.shorts.isEmpty then (if c.v then runWithR markValidator pinnedStreamCfg c else runWithR passThrough pinnedStreamCfg c)
+  else if c.v then runWith markValidator pinnedStreamCfg c fs else runWith passThrough pinnedStreamCfg c fs
 
 def showOp : DOp → String
   | .write p t ok => s!"w{p.length}:{t}" ++ (if ok then "" else "!")
@@ -150,6 +217,8 @@ def execWr (args : List String) : String :=
   | none => "bad-op"
   | some c =>
     let o := run c c.faults
+    -- O_APPEND: the same operations land elsewhere (Dest.runAppend)
+    let o := if c.ap then { o with d := { o.d with content := (({ content := c.pre, pos := c.pos } : Dest).runAppend o.d.log.reverse).content } } else o
     if o.refused then "refused" else showRun o
 
 def fnv (bs : Bytes) : UInt64 := bs.foldl (fun h b => (h ^^^ b.toUInt64) * 0x100000001b3) 0xcbf29ce484222325
@@ -178,9 +247,9 @@ def faultPoints (log : List DOp) : List (Nat × Nat) := Id.run do
   return pts.toList
 
 /-- replay of an operation log (oldest first) on a destination: the first `k` operations in full, `j` bytes of operation `k` -/
-def replay (pre : Bytes) (ops : List DOp) (k j : Nat) : Bytes := Id.run do
+def replay (pre : Bytes) (pos0 : Nat) (ops : List DOp) (k j : Nat) : Bytes := Id.run do
   let mut c := pre
-  let mut pos := pre.length
+  let mut pos := pos0
   let mut i := 0
   for op in ops do
     if i > k then break
@@ -200,7 +269,7 @@ def execWrX (args : List String) : String :=
   match parse args true with
   | none => "bad-op"
   | some c =>
-    if c.hasF then "bad-op" else
+    if c.hasF || c.ap then "bad-op" else
     let base := run c []
     if base.refused then "refused" else
     let pts := faultPoints base.d.log.reverse
@@ -211,7 +280,10 @@ def execWrX (args : List String) : String :=
         | .ok _ => "/" ++ hex o.d.content
         | _ => ""
       -- self-check of the model: the single-fault run leaves the crash state of the healthy run's operation sequence
-      let tail := if o.d.content == replay c.pre base.d.log.reverse k j && o.d.log.length == k + 1 then tail else tail ++ "/not-a-crash-prefix"
+      -- … stated with the definitions of C11_fault_is_crash_prefix: the destination is the replay of `crashOps k j` of the healthy log
+      let crash := ({ content := c.pre, pos := c.pos } : Dest).run (crashOps k j base.d.log.reverse)
+      let tail := if o.d.content == replay c.pre c.pos base.d.log.reverse k j && o.d.log.length == k + 1 &&
+          o.d.content == crash.content && o.d.pos == crash.pos && o.d.log == crash.log then tail else tail ++ "/not-a-crash-prefix"
       s!" {k}.{j}={joinOr (o.results.toList.map resName)}/{joinOr (o.hits.toList.map toString)}/{hexN 16 (fnv o.d.content).toNat}/{showCi ci}{tail}"
     s!"n={pts.length}{String.join entries}"
 
@@ -277,7 +349,7 @@ def c11Run (c : Cfg) (results hits : List String) (ci : String) (out : Option By
   else if hits.any (fun h => match h.toNat? with
       | some i => results[i]? != some "err"
       | none => true) then some "fail:fault-swallowed"
-  else if ci.startsWith "ok" && !c.cont && zeroHeaders c && (specChain c c.stream).isSome && !(c.kind == .at && !c.pre.isEmpty) then
+  else if ci.startsWith "ok" && !c.cont && zeroHeaders c && (specChain c c.stream).isSome && !(c.kind == .at && !c.pre.isEmpty) && c.pos == c.pre.length && c.shorts.isEmpty && !c.ap then
     match out with
     | none => some "fail:answer"
     | some bs => if (boundaries c).contains bs then none else some "fail:incomplete-output-accepted"
@@ -300,7 +372,7 @@ def propWr (args : List String) (impl : String) : String :=
         | none =>
           -- C09: a fault-free, accepted run leaves exactly pre ++ encodeChain (write-at destinations: the encoder's own, i.e. empty before)
           if c.hasF then "ok"
-          else if c.kind == .at && !c.pre.isEmpty then "n/a"
+          else if (c.kind == .at && !c.pre.isEmpty) || c.pos != c.pre.length || c.ap then "n/a"
           else match specChain c c.stream with
             | none => "n/a"
             | some fits =>
